@@ -102,6 +102,7 @@ type StepB struct {
 	Copy    int    `json:"copy,omitempty"`
 	PauseUs int    `json:"pause_us,omitempty"`
 	Ctx     int    `json:"ctx,omitempty"` // close: context state (see Op.Ctx)
+	Layout  int    `json:"layout,omitempty"` // close: 0 the main layout, 1 the second (referrer target) layout
 }
 
 // CopyB is one copy of a Part-B schedule (copy i reads repository proj/c<i> and writes tag c<i>).
@@ -112,6 +113,11 @@ type CopyB struct {
 	DigestTags bool       `json:"digest_tags,omitempty"`
 	Force      bool       `json:"force,omitempty"`
 	Fault      *FaultSpec `json:"fault,omitempty"`
+	// with Referrers: ImageWithReferrerTgt = 0 none | 1 the main layout under another reference form (same path) | 2 the
+	// SECOND layout | 3 a registry repository; ImageWithReferrerSrc = 0 none | 1 another layout holding the referrers | 2 a
+	// registry repository holding them
+	RefTgt int `json:"ref_tgt,omitempty"`
+	RefSrc int `json:"ref_src,omitempty"`
 }
 
 // CaseB is one concurrent schedule.
@@ -124,6 +130,8 @@ type CaseB struct {
 	CloseEvery int           `json:"close_every"` // Close(target) from inside every k-th source request (0 = off)
 	CloseAt    []int         `json:"close_at,omitempty"`
 	PathForm   int           `json:"path_form,omitempty"` // see CaseA.PathForm
+	Pre2       string        `json:"pre2,omitempty"`      // pre-state of the second layout: absent | empty | graph
+	CloseBoth  bool          `json:"close_both,omitempty"` // closes issued from inside copies also close the second layout
 	CloseCtx   []int         `json:"close_ctx,omitempty"` // context states of the closes issued from inside copies (cyclic; empty = live)
 	Delays     []int         `json:"delays,omitempty"`
 	Procs      int           `json:"procs"`
@@ -480,7 +488,11 @@ func genB(t *rapid.T) Case {
 			// (kept rare: behind it the completeness clause of the final Close cannot be judged)
 			cp.Referrers = rapid.IntRange(0, 5).Draw(t, l+"_faultref") == 0
 		} else {
-			cp.Referrers = rapid.IntRange(0, 3).Draw(t, l+"_referrers") == 0
+			cp.Referrers = rapid.IntRange(0, 2).Draw(t, l+"_referrers") == 0
+			if cp.Referrers {
+				cp.RefTgt = rapid.SampledFrom([]int{0, 0, 1, 2, 2, 2, 3}).Draw(t, l+"_reftgt")
+				cp.RefSrc = rapid.SampledFrom([]int{0, 0, 0, 1, 2}).Draw(t, l+"_refsrc")
+			}
 			cp.DigestTags = rapid.IntRange(0, 4).Draw(t, l+"_digesttags") == 0
 		}
 		c.Copies = append(c.Copies, cp)
@@ -490,7 +502,7 @@ func genB(t *rapid.T) Case {
 		}
 		c.Workers[w] = append(c.Workers[w], StepB{Kind: "copy", Copy: i})
 		if rapid.IntRange(0, 3).Draw(t, l+"_close") != 0 {
-			c.Workers[w] = append(c.Workers[w], StepB{Kind: "close", Ctx: rapid.SampledFrom(closeCtxChoices).Draw(t, l+"_closectx")})
+			c.Workers[w] = append(c.Workers[w], StepB{Kind: "close", Ctx: rapid.SampledFrom(closeCtxChoices).Draw(t, l+"_closectx"), Layout: rapid.SampledFrom([]int{0, 0, 0, 1}).Draw(t, l+"_closelayout")})
 		}
 	}
 	// a worker that only closes (regbot-style housekeeping running beside the copies)
@@ -499,7 +511,7 @@ func genB(t *rapid.T) Case {
 			nc := rapid.IntRange(1, 4).Draw(t, fmt.Sprintf("w%d_nclose", w))
 			for j := 0; j < nc; j++ {
 				c.Workers[w] = append(c.Workers[w], StepB{Kind: "pause", PauseUs: rapid.SampledFrom(pauses[1:]).Draw(t, fmt.Sprintf("w%d_p%d", w, j))},
-					StepB{Kind: "close", Ctx: rapid.SampledFrom(closeCtxChoices).Draw(t, fmt.Sprintf("w%d_c%d", w, j))})
+					StepB{Kind: "close", Ctx: rapid.SampledFrom(closeCtxChoices).Draw(t, fmt.Sprintf("w%d_c%d", w, j)), Layout: rapid.SampledFrom([]int{0, 0, 1}).Draw(t, fmt.Sprintf("w%d_l%d", w, j))})
 			}
 		}
 	}
@@ -518,5 +530,7 @@ func genB(t *rapid.T) Case {
 	}
 	c.Procs = rapid.SampledFrom([]int{1, 2, 4, 16}).Draw(t, "procs")
 	c.PathForm = rapid.SampledFrom([]int{0, 0, 0, 1, 2}).Draw(t, "pathform")
+	c.Pre2 = rapid.SampledFrom([]string{"absent", "empty", "graph"}).Draw(t, "pre2")
+	c.CloseBoth = rapid.Bool().Draw(t, "closeboth")
 	return Case{Part: "B", B: c}
 }
